@@ -34,6 +34,22 @@ Theorem C15_plus_fold_lookup : forall first rest k,
 Proof. exact plus_fold_lookup. Qed.
 Print Assumptions C15_plus_fold_lookup.
 
+(** structs go the other way round: `self.structs.extend(other.structs)` lets the base's definition of a struct
+    name replace the derived library's; along a chain the innermost library that defines the name decides *)
+Theorem C15_extend_structs : forall first rest s,
+  forallb wf_structs rest = true ->
+  slookup s (l_structs (resolve_chain first rest)) = spec_chain_struct (l_structs first) (map l_structs rest) s.
+Proof. exact extend_chain_structs. Qed.
+Print Assumptions C15_extend_structs.
+
+Theorem C15_structs_nonvacuous :
+  wf_structs ex_sb = true /\
+  slookup "S" (l_structs (extend ex_sd ex_sb)) = Some [(["base"], ex_ro)] /\
+  slookup "D" (l_structs (extend ex_sd ex_sb)) = Some [(["d"], ex_ro)] /\
+  slookup "B" (l_structs (extend ex_sd ex_sb)) = Some [(["b"], ex_ro)].
+Proof. exact extend_structs_example. Qed.
+Print Assumptions C15_structs_nonvacuous.
+
 Theorem C15_nonvacuous :
   wf_lib ex_derived = true /\ wf_lib ex_base = true /\
   l_globals (extend ex_derived ex_base) = [(["x"], ex_fn); (["kept"; "f"], ex_ro)] /\
